@@ -1061,10 +1061,10 @@ package main
 //@   note abstract: advances the tokenizer (tkzNext, verified under C06 over byte strings); every other component is kept
 
 //@ func psIdentNameNx
-//@   trusted
+//@   props C15 C07 C03
 //@   panics may
+//@   ensures ident: ps.tkz.current.ttype == New_TokenType_IDENTIFIER && result.E0 == adv(ps) && result.E1 == ps.tkz.current.stringVal
 //@   ensures frame: result.E0.scope == ps.scope && result.E0.offsideCol == ps.offsideCol && result.E0.tvc == ps.tvc && result.E0.tdctx == ps.tdctx
-//@   note abstract: the current identifier, then advance
 
 //@ func parseExtDefs
 //@   trusted
@@ -1117,12 +1117,28 @@ package main
 //@ func scLookupTypeFac
 //@   trusted
 //@   panics may
+//@   ensures found: result.E1 == has_typefac(s, name)
+//@   note abstract: has_typefac is uninterpreted - "the scope chain has a type factory under this name"
+
 //@ func parseFullName
-//@   trusted
+//@   props C15
 //@   panics may
+//@   ensures grammar: Rfullname(ps, result.E0, result.E1)
+//@   ensures frame: result.E0.scope == ps.scope
+
+//@ func parseTypeList
+//@   props C15
+//@   modifies maps
+//@   param pType: like parseType($0)
+//@   panics may
+//@   ensures grammar: Rtlist(ps, result.E0, result.E1)
+
 //@ func mightParseSpecifiedTypeList
-//@   trusted
+//@   props C15
+//@   modifies maps
+//@   param pType: like parseType($0)
 //@   panics may
+//@   ensures grammar: Rtargs(ps, result.E0, result.E1)
 //@ func tdctxTVFAlloc
 //@   trusted
 //@   panics may
